@@ -460,7 +460,10 @@ def detector_transforms(spec, p, rng):
     if "shift" in spec["sym"]:
         ts.append({"type": "shift", "c": [round(float(c), 3) for c in rng.uniform(-10, 10, size=p)]})
     if "scale" in spec["sym"]:
-        ts.append({"type": "scale", "a": float(rng.choice([0.5, 3.0, 0.2]))})
+        # always one factor that shrinks the data (Gaussian costs of small-variance data are negative: shortcuts that assume non-negative
+        # costs only show there) and one drawn from the others; the detection must not hinge on the seed
+        ts.append({"type": "scale", "a": 0.2})
+        ts.append({"type": "scale", "a": float(rng.choice([0.5, 3.0]))})
     if "reverse" in spec["sym"]:
         ts.append({"type": "reverse"})
     return ts
@@ -596,8 +599,23 @@ def pelt_reversal_sweep(rec, obs, tier, seed):
                             check_detector(rec, obs, spec, X, f"small{r}-n{n}p{p}", {"type": "reverse"}, (st, out, final, False))
 
 
+def crafted_scale_cases(rec, obs):
+    """Seed-independent: PELT with the Gaussian costs on clean mean-jump data, shrunk by 0.2 / 0.1 / 0.05 (the Gaussian cost of small-variance data is
+    negative -- a shortcut that assumes non-negative costs, or an absolute tolerance, only shows there) and blown up by 5."""
+    rng = np.random.default_rng(20240611)
+    for n, p, cost in ((40, 1, "GaussianVarCost"), (48, 2, "GaussianVarCost"), (48, 2, "GaussianCovCost")):
+        X = rng.normal(size=(n, p))
+        X[n // 2:] += 3.0
+        for m, ps in ((4, 1.0), (5, 2.0)):
+            spec = dict(detector="PELT", kwargs=dict(cost=cost, min_segment_length=m, penalty_scale=ps), sym=["scale"])
+            base = base_run(spec, X, 77)
+            for a in (0.2, 0.1, 0.05, 5.0):
+                check_detector(rec, obs, spec, X, f"crafted-jump-n{n}p{p}", {"type": "scale", "a": a}, base)
+
+
 def detector_level(rec, obs, tier, seed):
     pelt_reversal_sweep(rec, obs, tier, seed)
+    crafted_scale_cases(rec, obs)
     rng = np.random.default_rng(seed + 101)
     shapes = [(12, 1), (12, 2), (16, 3), (20, 2), (30, 1), (30, 2)] if tier == "quick" else \
              [(n, p) for n in (10, 12, 16, 20, 24, 30) for p in (1, 2, 3)]
